@@ -621,7 +621,9 @@ RULE = (
     "seeded initial capacity in {1,2,3,5,8,2^20}; 30% of the runs place every block against guard "
     "pages (twin 0: ends fenced, twin 1: starts fenced, released blocks inaccessible); ~8% are "
     "hypersparse runs (compressed-only indexes of size 46341..2^20 with <=5 stored entries); 12% "
-    "generate each kernel kind in its own module; 4-10% compile the C text with gcc (signed-overflow "
+    "generate each kernel kind in its own module; 12% generate related problems (storage twins, "
+    "subsets of kinds) in the same process first; ~2% run on a 256 KiB thread stack over vectors "
+    "with 3000-9000 stored entries; 4-10% compile the C text with gcc (signed-overflow "
     "traps). distinct_nontrivial counts distinct "
     "(assignment with literals abstracted, formats) pairs that have at least one compressed "
     "level and at least one stored input entry and for which kernels were generated and run."
